@@ -61,7 +61,7 @@ STATEMENTS = {
              "1-based line number",
 }
 PROPS = {
-    "K_ANY": ["C04"], "K_COMMENT": ["C05", "C04"], "K_BLANK": ["C02", "C05"], "K_ENTRY": ["C02", "C17", "C07"],
+    "K_ANY": ["C04"], "K_COMMENT": ["C05", "C04", "C17"], "K_BLANK": ["C02", "C05"], "K_ENTRY": ["C02", "C17", "C07"],
     "K_HEADER": ["C02"], "K_CONT": ["C02", "C17", "C14", "C07"], "K_BAD": ["C13"], "K_PYCONT": ["C15"], "K_JOIN": ["C15"],
 }
 
